@@ -47,6 +47,7 @@ def run(tier):
             k += ":" + e["entry"]
         elif k == "VerifyFlips":
             flipped[e["target"]] += e["n"]
+            rep.evals += e["n"] - 1          # every flipped position was verified (aggregated event)
             rep.count_case(["F", e["target"], e["pk"], e["msg"], e["sig"], e["n"], e["accepted"]])
         elif k == "Auth":
             rep.count_case(["A", e["kind"], e["keys"], e["t"], e["msg"], e["sigs"], e["res"]])
